@@ -200,6 +200,8 @@ def generate(ctx, unrepaired):
             ("1", "1", d1, "g1"), ("1", "1", d1, "remove")]
     # one delegator with delegations to three validators (seeded prelude of 7 operations), 3 / 4 further operations
     runs.append(("1, 2, 3", "1", 7 + (3 if quick else 4), "deleg3"))
+    # blind steps (no projection after flagged operations): prelude of 3 operations, 3 / 4 further ones
+    runs.append(("1, 2", "1", 3 + (3 if quick else 4), "blind"))
     if not quick:
         runs.append(("1", "1, 2", 5, "g1b"))
     for vals, accts, depth, alpha in runs:
